@@ -172,7 +172,10 @@ class HeapLV(LV):
                 flags = []
             for (k, s), isrid in zip(ks, flags):
                 if isrid:
-                    ex.facts.append(z3.ULT(z3.Select(z3.Array("H_" + k, RS, s), self.oid), rid(FRESH_BASE)))
+                    # (objects that existed before the call only: the same array at a fresh object's index stands for
+                    # the fields of an object a callee allocated, which may point to other fresh objects)
+                    ex.facts.append(z3.Implies(z3.ULT(self.oid, rid(FRESH_BASE)),
+                                               z3.ULT(z3.Select(z3.Array("H_" + k, RS, s), self.oid), rid(FRESH_BASE))))
         v, _ = unflatten(self.typ, terms)
         if True:
             try:
@@ -491,6 +494,19 @@ class Executor:
     def slice_get(self, st, sl, i):
         terms = [z3.Select(a, sl.off + i) for (_, _, a) in self.region_arrays(st, sl)]
         v, _ = unflatten(sl.elem, terms)
+        if sl.lv is None and not is_scalar_type(sl.elem):
+            # ids stored in the PRE-state contents of a region that existed before the call denote things that
+            # existed before the call (parallel to the heap fact in HeapLV.get)
+            try:
+                flags = rid_flags(sl.elem)
+            except Unsupported:
+                flags = []
+            for i_, ((_, s_), isrid) in enumerate(zip(leaves(sl.elem), flags)):
+                if isrid:
+                    key_ = self.mem_key(sl.elem, i_, s_)
+                    a0 = z3.Array("M_" + key_, RS, z3.ArraySort(IS, s_))
+                    self.facts.append(z3.Implies(z3.ULT(sl.rid, rid(FRESH_BASE)),
+                                                 z3.ULT(z3.Select(z3.Select(a0, sl.rid), sl.off + i), rid(FRESH_BASE))))
         eu = sl.elem.under()
         if eu.k == "slice" or (eu.k == "basic" and eu.d.get("b") == "string"):
             # a slice / string header read from memory is a well-formed header (len <= cap, ...)
